@@ -74,6 +74,25 @@ def run_late_relay(seed, tape, w, a, b, code):
             sim.net.autoflush_all()
         sim.run(600, max_time=0.2)
     sim.run(600, max_time=1.0)
+    # the converse: a well-formed entry becomes a connection attempt. The
+    # relay named here refuses at once and the clock only moves when no
+    # attempt is pending, so whenever a list arrives its receiver (still
+    # looking for a connection) has no live or pending attempt towards the
+    # relay: ignoring the entry would leave the peers without any path, so
+    # each such list must lead to a dial (within RELAY_DELAY)
+    sim.reactor.callLater(3.0, lambda: None)
+    sim.run(3000, max_time=3.0)
+    want = sum(1 for _, _, hints in injected if relay in hints)
+    got = sum(1 for hp in sim.net.dial_log if tuple(hp) == ("10.9.9.7", 4001))
+    if got < want and not (a.closed_results or b.closed_results or
+                           a.saw_failure or b.saw_failure):
+        V("C20.dilation.valid_hint_not_dialled", "hints with a string "
+          "hostname and integer port of a supported type become connection "
+          "attempts; handling hints never prevents the transfer",
+          "%d hint lists named the relay 10.9.9.7:4001 while their receiver "
+          "was looking for a connection and had no live or pending attempt "
+          "towards it, but it was dialled only %d times; timed lists %s" %
+          (want, got, json.dumps(injected)[:300]))
     for c in (a, b):
         if c.closed_results or c.saw_failure:
             errtype = [v for k, v in c.events if k.endswith("_err")]
